@@ -367,6 +367,12 @@ func aliasCase(rep *Report, arena *guardArena, s *glue.Subject, d MD, idx int) {
 			rep.Count("C07", "subjects-with-nil-elements", 1)
 		}
 	}
+	if idx%8 == 5 || idx%8 == 3 {
+		// struct-level state: strings that are not valid UTF-8 (the calls may fail, they may not "repair" the message)
+		if n := invalidateStrings(reflect.ValueOf(subj), r, 0); n > 0 {
+			rep.Count("C07", "subjects-with-invalid-utf8-strings", 1)
+		}
+	}
 	other := BuildStruct(s.Zero, g.Msg(d, 0))
 	for _, op := range roOps {
 		before := Fingerprint(subj)
@@ -466,6 +472,53 @@ func nilOutMessages(rv reflect.Value, r *rand.Rand, depth int) int {
 				} else {
 					n += nilOutMessages(rv.MapIndex(k), r, depth+1)
 				}
+			}
+		}
+	}
+	return n
+}
+
+// invalidateStrings overwrites about half of the string values reachable in the struct (fields, list elements, map
+// values, oneof members, nested messages) with strings that are not valid UTF-8.
+func invalidateStrings(rv reflect.Value, r *rand.Rand, depth int) int {
+	if depth > 100 {
+		return 0
+	}
+	bad := []string{"\xff", "ok\xc0\x80", "\xed\xa0\x80tail", "a\xf8\x88\x80\x80\x80", "\x80"}
+	n := 0
+	switch rv.Kind() {
+	case reflect.Ptr, reflect.Interface:
+		if !rv.IsNil() {
+			n += invalidateStrings(rv.Elem(), r, depth+1)
+		}
+	case reflect.Struct:
+		for i := 0; i < rv.NumField(); i++ {
+			if rv.Type().Field(i).PkgPath != "" {
+				continue
+			}
+			n += invalidateStrings(rv.Field(i), r, depth+1)
+		}
+	case reflect.String:
+		if rv.CanSet() && r.Intn(2) == 0 {
+			rv.SetString(bad[r.Intn(len(bad))])
+			n++
+		}
+	case reflect.Slice:
+		if rv.Type().Elem().Kind() == reflect.String || rv.Type().Elem().Kind() == reflect.Ptr {
+			for i := 0; i < rv.Len(); i++ {
+				n += invalidateStrings(rv.Index(i), r, depth+1)
+			}
+		}
+	case reflect.Map:
+		for _, k := range rv.MapKeys() {
+			switch rv.Type().Elem().Kind() {
+			case reflect.String:
+				if r.Intn(2) == 0 {
+					rv.SetMapIndex(k, reflect.ValueOf(bad[r.Intn(len(bad))]).Convert(rv.Type().Elem()))
+					n++
+				}
+			case reflect.Ptr:
+				n += invalidateStrings(rv.MapIndex(k), r, depth+1)
 			}
 		}
 	}
